@@ -332,6 +332,7 @@ theorem live_rwFlush (env : Env) (hd : Bool) (s : St) (h : Live hd s) : Live hd 
 theorem live_step (env : Env) (hd : Bool) (s : St) (a : Act) (h : Live hd s) : Live hd (step env s a) := by
   cases a with
   | add k v => exact ⟨h.isHead, h.notDone, h.get, h.head⟩
+  | setFirst k v => exact ⟨h.isHead, h.notDone, h.get, h.head⟩
   | status c => exact live_writeHeader hd s c h
   | write p => exact live_rwWrite env hd s p h
   | flush => exact live_rwFlush env hd s h
